@@ -170,3 +170,23 @@ Definition spec_cb (m : meth) (f : callback) (l : list elem) : option (elem * li
   | _ => None
   end.
 
+
+(* ---- a sequence of documented calls on one receiver: each call sees exactly the receiver the
+   previous one left.  (sort steps have a relational specification, see sorted_by_text, and are
+   not part of spec_seq.) *)
+Definition spec_step (l : list elem) (s : step) : option (elem * list elem) :=
+  match s with
+  | StCall m args => spec_call m l args
+  | StCb m f => spec_cb m f l
+  | StRed f init =>
+      Some (js_reduce f l (match init with x :: _ => if is_null x then None else Some x | [] => None end), l)
+  end.
+Fixpoint spec_seq (l : list elem) (ss : list step) : option (list (elem * list elem)) :=
+  match ss with
+  | [] => Some []
+  | s :: r =>
+      match spec_step l s with
+      | Some p => match spec_seq (snd p) r with Some ps => Some (p :: ps) | None => None end
+      | None => None
+      end
+  end.
